@@ -1,7 +1,7 @@
 (* C02: column comparison selects exactly the matching rows.  Statements only. *)
 From Coq Require Import ZArith NArith List Bool String Sorted Permutation.
 From DM Require Import Base.PyVal Spec.Nf Spec.Table Spec.Select Gen.KCheck Model.SelectRef Gen.KSelect Model.Select.
-From DM Require Import Proofs.SelectFacts Proofs.SelectRefine.
+From DM Require Import Proofs.SelectFacts Proofs.SelectRefine Proofs.SelectTable.
 Import ListNotations.
 
 (* The result of `t.c OP r` holds exactly the rows whose cell satisfies the comparison (sat_at),
@@ -70,17 +70,57 @@ Theorem C02_nan_only_by_eq_nan : forall op r i,
 Proof. exact nan_only_by_eq_nan. Qed.
 Print Assumptions C02_nan_only_by_eq_nan.
 
-(* L1 = L0: the model assembled from the kernels regenerated from _basecolumn.py / _numericcolumn.py
-   (dispatch chain, op tests, per-cell tests, coerced reference, NaN / inf special cases, IntColumn
-   fallbacks) selects the positions of the specification.  _partial: see Proofs/SelectRefine.v
-   proved_dom -- scalar references (MixedColumn: all; IntColumn: int64 integers; FloatColumn: non-integral
-   floats, +-inf with == / !=; NaN with == / !=), sets, predicates and types for every column type;
-   not: sequences, integer-valued FloatColumn references, float references of an IntColumn. *)
-Theorem C02_compare_refines_partial : forall k cells op r,
-  forallb (cell_of k) cells = true -> proved_dom k op r = true ->
+(* L1 = L0 on the WHOLE reference domain of the property (Spec.Select.in_domain: scalars, same-length
+   sequences compared row by row, sets, predicates, types; all three column types; all six operators):
+   the model assembled from the kernels regenerated from _basecolumn.py / _numericcolumn.py (dispatch chain,
+   _issequence, op tests, per-cell tests, the reference coerced by _checktype / _tosequence, NaN / inf special
+   cases, element-wise NumPy comparison, IntColumn.__eq__/__ne__ fallbacks) selects exactly the positions of
+   the specification.  Premises: the cells are cells of that column type; the floats of the reference are
+   binary64 values (odd mantissa below 2^53 -- what the harness prints); the reference is in the domain.
+   Sequence references and integral float references (1.0, 2.0 ** 53, -0.0 for a FloatColumn; 7.0 for an
+   IntColumn; integers for a FloatColumn) are included: int(f) == f and float(int(f)) == f are exact
+   (Proofs/SelectNum.v), so _checktype's detour through a Python int changes nothing. *)
+Theorem C02_compare_refines : forall k cells op r,
+  forallb (cell_of k) cells = true -> ref_wf r = true -> in_domain k op r cells = true ->
   compare k cells op (inj_ref r) = Ok (sel_positions op r cells).
-Proof. exact compare_refines_partial. Qed.
+Proof. exact compare_refines. Qed.
+Print Assumptions C02_compare_refines.
+
+(* The name of the earlier, partial statement is kept.  Its premise proved_dom used to exclude sequences,
+   integer-valued FloatColumn references and float / inf / None references of an IntColumn; it now contains
+   them, and with them all of in_domain (C02_in_domain_proved), so C02_compare_refines is its corollary.
+   proved_dom is a statement about the MODEL and is wider than in_domain in places (integers of any size, sets
+   without restriction on the members, text / None elements for a FloatColumn); outside in_domain the model is
+   not claimed to mirror NumPy.  Still _partial in one respect only: references outside in_domain (numeric
+   text, bool, non-integral floats against an IntColumn, other objects) are tied by correspondence alone. *)
+Theorem C02_compare_refines_partial : forall k cells op r,
+  forallb (cell_of k) cells = true -> proved_dom k op r (List.length cells) = true ->
+  compare k cells op (inj_ref r) = Ok (sel_positions op r cells).
+Proof. exact compare_refines_dom. Qed.
 Print Assumptions C02_compare_refines_partial.
+
+Theorem C02_in_domain_proved : forall k op r cells,
+  ref_wf r = true -> in_domain k op r cells = true -> proved_dom k op r (List.length cells) = true.
+Proof. exact in_domain_proved. Qed.
+Print Assumptions C02_in_domain_proved.
+
+(* a list / tuple whose length differs from the column's: TypeError, for every column type and operator
+   (the error case of the sequence comparison; L0 makes no claim there) *)
+Theorem C02_seq_length_mismatch : forall k cells op vs,
+  List.length vs <> List.length cells -> compare k cells op (inj_ref (RSeq vs)) = Raise TypeError.
+Proof. exact compare_seq_length_mismatch. Qed.
+Print Assumptions C02_seq_length_mismatch.
+
+(* The whole operation: comparing, then building the result BY ROW ID (DataMatrix._selectrowid re-reads every
+   column through _getrowidkey) is the positional selection of the specification -- with all columns and cells of
+   the selected rows -- on every well-formed table whose row ids are duplicate-free.  (A resize that hands out an
+   existing id, as in seeded changes C02-2 / C02-6, leaves exactly this premise.) *)
+Theorem C02_l_select_refines : forall t c op r s,
+  wf_table t = true -> nodup_N (ids t) = true -> slot_of t c = Some s ->
+  forallb (cell_of (skind s)) (scells s) = true -> ref_wf r = true -> in_domain (skind s) op r (scells s) = true ->
+  l_select t c op (inj_ref r) = Ok (select t c op r).
+Proof. exact l_select_refines. Qed.
+Print Assumptions C02_l_select_refines.
 
 (* the code's comparison of Python objects, with raising = no match, is py_cmp *)
 Theorem C02_swallow_py_op : forall op c v, swallow (py_op op (pyv_of_val c) (pyv_of_val v)) = Ok (py_cmp op c v).
@@ -103,8 +143,38 @@ Example C02_ex_lt : option_map view (select ex_t "c" CLt (RScalar (VInt 3)))
 Proof. vm_compute. reflexivity. Qed.
 Example C02_ex_model : compare KMixed [VStr "a"; VFlt FNan; VInt 2] CNe (MSet [PInt 2; PStr "a" None None]) = Ok [1%nat].
 Proof. vm_compute. reflexivity. Qed.
-Example C02_ex_proved_dom : proved_dom KInt CGe (RScalar (VInt 7)) = true /\ proved_dom KFloat CEq (RScalar (VFlt (FInf true))) = true.
+Example C02_ex_proved_dom : proved_dom KInt CGe (RScalar (VInt 7)) 3 = true /\ proved_dom KFloat CEq (RScalar (VFlt (FInf true))) 0 = true.
 Proof. split; reflexivity. Qed.
+(* the premises of C02_compare_refines are inhabited by a sequence reference and by integral float references *)
+Definition ex_fcells : list val := [VFlt (FFin false 1 1); VFlt FNan; VFlt (FFin false 5 (-1)); VFlt (FZero true)].
+Definition ex_seq : ref := RSeq [VInt 2; VFlt (FFin false 1 1); VFlt (FFin false 5 (-1)); VInt 0].       (* [2, 2.0, 2.5, 0] *)
+Example C02_ex_seq_premises :
+  forallb (cell_of KFloat) ex_fcells = true /\ ref_wf ex_seq = true /\ in_domain KFloat CLe ex_seq ex_fcells = true.
+Proof. repeat split; vm_compute; reflexivity. Qed.
+Example C02_ex_seq_model : compare KFloat ex_fcells CLe (inj_ref ex_seq) = Ok [0%nat; 2%nat; 3%nat]
+  /\ sel_positions CLe ex_seq ex_fcells = [0%nat; 2%nat; 3%nat].
+Proof. split; vm_compute; reflexivity. Qed.
+Example C02_ex_seq_mismatch : compare KFloat ex_fcells CEq (inj_ref (RSeq [VInt 2])) = Raise TypeError.
+Proof. vm_compute. reflexivity. Qed.
+(* FloatColumn > 2.0 (an integral float), FloatColumn == 2 ** 53, IntColumn <= 7.0, IntColumn != inf *)
+Example C02_ex_integral_premises :
+  ref_wf (RScalar (VFlt (FFin false 1 1))) = true
+  /\ in_domain KFloat CGt (RScalar (VFlt (FFin false 1 1))) ex_fcells = true
+  /\ in_domain KFloat CEq (RScalar (VInt (2 ^ 53))) ex_fcells = true
+  /\ in_domain KInt CLe (RScalar (VFlt (FFin false 7 0))) [VInt 7; VInt 8] = true
+  /\ in_domain KInt CNe (RScalar (VFlt (FInf false))) [VInt 7; VInt 8] = true.
+Proof. repeat split; vm_compute; reflexivity. Qed.
+Example C02_ex_integral_model :
+  compare KFloat ex_fcells CGt (inj_ref (RScalar (VFlt (FFin false 1 1)))) = Ok [2%nat]
+  /\ compare KInt [VInt 7; VInt 8] CLe (inj_ref (RScalar (VFlt (FFin false 7 0)))) = Ok [0%nat]
+  /\ compare KInt [VInt 7; VInt 8] CNe (inj_ref (RScalar (VFlt (FInf false)))) = Ok [0%nat; 1%nat].
+Proof. repeat split; vm_compute; reflexivity. Qed.
+(* the table-level premises: ex_t is well-formed, its ids are duplicate-free *)
+Example C02_ex_table_premises : nodup_N (ids ex_t) = true /\ forallb (cell_of KMixed) [VStr "a"; VFlt FNan; VInt 2] = true.
+Proof. split; reflexivity. Qed.
+Example C02_ex_l_select : l_select ex_t "c" CNe (inj_ref (RSeq [VStr "a"; VInt 1; VFlt (FFin false 1 1)]))
+  = Ok (select ex_t "c" CNe (RSeq [VStr "a"; VInt 1; VFlt (FFin false 1 1)])).
+Proof. vm_compute. reflexivity. Qed.
 (* IntColumn == object (repaired: the code used to test `other is int`): every int is an object *)
 Example C02_int_object :
   compare KInt [VInt 1] CEq (MType TObject) = Ok [0%nat] /\ sel_positions CEq (RType TObject) [VInt 1] = [0%nat].
